@@ -18,7 +18,8 @@ def seeded_table():
         c = m.get('confirmed', {})
         chk = c.get('check', {})
         obl = sorted({l.split('obligation=')[1].split()[0].split('/', 1)[1] for l in chk.get('lines', []) if 'obligation=' in l})
-        verdict = 'caught' if c.get('caught') else ('not applicable to HEAD' if c.get('patch_applies') is False else 'MISSED')
+        verdict = 'caught' if c.get('caught') else ('superseded (patch no longer applies)' if c.get('patch_applies') is False else
+                   'neutralised by a repair (demo passes on the changed tree)' if c.get('demo_on_changed_tree', {}).get('exit') == 0 else 'MISSED')
         summ = re.sub(r'\s+', ' ', m.get('summary', ''))[:230]
         rows.append(f"| {name} | {summ} | {'PASS' if c.get('demo_on_unchanged_tree', {}).get('exit') == 0 else '?'} / "
                     f"{'FAIL' if c.get('demo_on_changed_tree', {}).get('exit') == 1 else '?'} | {c.get('test_suite_on_changed_tree', '')[:22]} | "
